@@ -283,7 +283,15 @@ func trueCmps(f fact) []cmp {
 			if !val {
 				op = negate(op)
 			}
-			return []cmp{{op, b.X, b.Y}}
+			// normal form: a constant operand (nil, a number) goes to the right — `nil != err`, `0 == n` and
+			// `err != nil`, `n == 0` are the same fact
+			x, y := b.X, b.Y
+			if _, xk := x.(*ssa.Const); xk {
+				if _, yk := y.(*ssa.Const); !yk {
+					x, y, op = y, x, swapOp(op)
+				}
+			}
+			return []cmp{{op, x, y}}
 		}
 	}
 	op := token.EQL
